@@ -610,7 +610,7 @@ def check_run(run, stats_helper, Entry):
                 cause = 'unknown'
                 if k.time in aliased_times:
                     cause = 'restart_counter_aliasing'
-                elif s is None or k.time in stale_times:
+                elif k.time in stale_times:
                     cause = 'stale_hook_counter'
                 add('recomputed_filter_keeps_superseded', 'filter_stats(type=%r, recomputed=False) returns a record of a superseded step: %s' % (ty, k),
                     cause=cause, type=ty, hook=HOOK_OF.get(ty), key=str(k))
@@ -622,7 +622,7 @@ def check_run(run, stats_helper, Entry):
                 cause = 'unknown'
                 if a['time'] in aliased_times or a['tend'] in aliased_times:
                     cause = 'restart_counter_aliasing'
-                elif not any(ident(k) == idn and k.num_restarts == a['nr'] for k in raw) or expected_key_fields(a, ty)['time'] in stale_times:
+                elif expected_key_fields(a, ty)['time'] in stale_times:
                     cause = 'stale_hook_counter'
                 add('recomputed_filter_drops_accepted', 'filter_stats(type=%r, recomputed=False) drops the record of the accepted step at t=%r '
                     '(slot %d, restart count %s): %d records for %d accepted steps' % (ty, a['time'], a['slot'], a['nr'], len(flt), len(acc)),
@@ -630,7 +630,11 @@ def check_run(run, stats_helper, Entry):
             elif n > 1:
                 add('duplicate_record', '%d %s records for the accepted step at t=%r' % (n, ty, a['time']), type=ty)
         # O7: sorting
-        srt = stats_helper.get_sorted(stats, type=ty, recomputed=False, sortby='time')
+        try:
+            srt = stats_helper.get_sorted(stats, type=ty, recomputed=False, sortby='time')
+        except Exception as e:
+            add('sort_raises', 'get_sorted(type=%r, recomputed=False, sortby=time) raised %s: %s' % (ty, type(e).__name__, e), type=ty)
+            continue
         ts = [x[0] for x in srt]
         if any(ts[i] > ts[i + 1] for i in range(len(ts) - 1)):
             add('sort_not_ascending', 'get_sorted(type=%r, sortby=time) is not ascending' % ty, type=ty)
